@@ -205,10 +205,17 @@ func pathOf(a ssa.Value) []int {
 
 func (tr *FnTrans) purityViolations() []string {
 	frameEng = tr.eng
+	return tr.purityOf(tr.fn, 0)
+}
+
+func (tr *FnTrans) purityOf(fn *ssa.Function, depth int) []string {
 	var out []string
-	for _, b := range tr.fn.Blocks {
+	if depth > 3 {
+		return []string{"closure nesting too deep"}
+	}
+	for _, b := range fn.Blocks {
 		for _, in := range b.Instrs {
-			pos := tr.fn.Prog.Fset.Position(in.Pos())
+			pos := fn.Prog.Fset.Position(in.Pos())
 			at := fmt.Sprintf("line %d", pos.Line)
 			switch x := in.(type) {
 			case *ssa.Store:
@@ -221,13 +228,25 @@ func (tr *FnTrans) purityViolations() []string {
 				}
 			case *ssa.Send:
 				out = append(out, "channel send at "+at)
-			case *ssa.Go:
-				out = append(out, "go statement at "+at)
 			case ssa.CallInstruction:
 				cc := x.Common()
+				if mc, ok := cc.Value.(*ssa.MakeClosure); ok {
+					// go / defer / call of a function literal: its body must be pure as well
+					if cf, ok := mc.Fn.(*ssa.Function); ok {
+						out = append(out, tr.purityOf(cf, depth+1)...)
+						continue
+					}
+				}
+				if _, isGo := x.(*ssa.Go); isGo {
+					out = append(out, "go statement at "+at)
+					continue
+				}
 				if bi, ok := cc.Value.(*ssa.Builtin); ok {
 					switch bi.Name() {
 					case "append", "copy":
+						if lvalPath(cc.Args[0]) != "" && contains(tr.modAllowed, lvalPath(cc.Args[0])) {
+							continue // growing a slice the modifies clause names
+						}
 						if !localRoot(cc.Args[0], 0) {
 							out = append(out, bi.Name()+" into non-local slice at "+at)
 						}
@@ -295,6 +314,66 @@ func (tr *FnTrans) frameChecks() {
 	}
 	if tr.c.Pure {
 		tr.syntactic("frame:pure", "function declared pure writes no caller-visible memory", tr.purityViolations())
+	}
+	if tr.c.ModSet && len(tr.c.Modifies) > 0 && !tr.c.Assumed {
+		var allowed []string
+		for _, m := range tr.c.Modifies {
+			allowed = append(allowed, m.E.String())
+		}
+		frameEng = tr.eng
+		var bad []string
+		tr.modAllowed = allowed
+		for _, v := range tr.purityOf(tr.fn, 0) {
+			if strings.HasPrefix(v, "store to non-local memory") {
+				continue // checked against the modifies clause below
+			}
+			bad = append(bad, v)
+		}
+		tr.modAllowed = nil
+		for _, b := range tr.fn.Blocks {
+			for _, in := range b.Instrs {
+				st, ok := in.(*ssa.Store)
+				if !ok || localRoot(st.Addr, 0) {
+					continue
+				}
+				// address must be param.f.g... named in the modifies clause
+				path := ""
+				cur := st.Addr
+				okShape := true
+				for okShape {
+					switch x := cur.(type) {
+					case *ssa.FieldAddr:
+						stt := x.X.Type().Underlying().(*types.Pointer).Elem().Underlying().(*types.Struct)
+						path = "." + stt.Field(x.Field).Name() + path
+						cur = x.X
+						continue
+					case *ssa.Parameter:
+						path = x.Name() + path
+					default:
+						okShape = false
+					}
+					break
+				}
+				found := false
+				for _, a := range allowed {
+					if okShape && a == path {
+						found = true
+					}
+				}
+				if !found {
+					pos := tr.fn.Prog.Fset.Position(st.Pos())
+					bad = append(bad, fmt.Sprintf("store to %s at line %d is not covered by the modifies clause", path, pos.Line))
+				}
+			}
+		}
+		tr.syntactic("frame:modifies", "function writes only what its modifies clause names: "+strings.Join(allowed, ", "), bad)
+	}
+	for src, inv := range tr.usedGlobalInvs {
+		var probs []string
+		for _, g := range globalsIn(inv.E, tr.fn.Pkg) {
+			probs = append(probs, tr.eng.globalWriters(tr.fn.Pkg, g)...)
+		}
+		tr.syntactic("frame:global-invariant", "package variables in ["+src+"] are assigned only by package initialisation", probs)
 	}
 	for i, t := range tr.stableTypes {
 		if strings.HasPrefix(tr.stableVals[i].T, "(glob ") {
@@ -424,6 +503,10 @@ func escapesRec(al *ssa.Alloc, busy map[*ssa.Alloc]bool) bool {
 					return true
 				}
 			case *ssa.MakeClosure:
+				// a closure that only reads the captured variable cannot change it, whoever runs it
+				if closureOnlyReads(x, v) {
+					continue
+				}
 				crefs := x.Referrers()
 				if crefs == nil {
 					return true
@@ -450,6 +533,35 @@ func escapesRec(al *ssa.Alloc, busy map[*ssa.Alloc]bool) bool {
 		return false
 	}
 	return derived(al)
+}
+
+// closureOnlyReads: every use, inside the closure body, of the free variable bound to v is a load.
+func closureOnlyReads(mc *ssa.MakeClosure, v ssa.Value) bool {
+	fn, ok := mc.Fn.(*ssa.Function)
+	if !ok {
+		return false
+	}
+	for i, b := range mc.Bindings {
+		if b != v || i >= len(fn.FreeVars) {
+			continue
+		}
+		refs := fn.FreeVars[i].Referrers()
+		if refs == nil {
+			return false
+		}
+		for _, r := range *refs {
+			switch u := r.(type) {
+			case *ssa.DebugRef:
+			case *ssa.UnOp:
+				if u.Op != token.MUL {
+					return false
+				}
+			default:
+				return false
+			}
+		}
+	}
+	return true
 }
 
 // loadsLeak: does any pointer-like value loaded from (a field of) the holder variable have a use
@@ -514,5 +626,57 @@ func (e *Engine) globalWriters(pkg *ssa.Package, name string) []string {
 			}
 		}
 	}
+	return out
+}
+
+// lvalPath renders a loaded lvalue of the shape param.f.g (empty when the value has another shape).
+func lvalPath(v ssa.Value) string {
+	ld, ok := v.(*ssa.UnOp)
+	if !ok || ld.Op != token.MUL {
+		return ""
+	}
+	path := ""
+	cur := ld.X
+	for {
+		switch x := cur.(type) {
+		case *ssa.FieldAddr:
+			stt := x.X.Type().Underlying().(*types.Pointer).Elem().Underlying().(*types.Struct)
+			path = "." + stt.Field(x.Field).Name() + path
+			cur = x.X
+			continue
+		case *ssa.Parameter:
+			return x.Name() + path
+		}
+		return ""
+	}
+}
+
+func contains(xs []string, x string) bool {
+	for _, y := range xs {
+		if y == x {
+			return true
+		}
+	}
+	return false
+}
+
+// globalsIn lists the package-level variables an expression mentions.
+func globalsIn(x *Expr, pkg *ssa.Package) []string {
+	var out []string
+	var walk func(x *Expr)
+	walk = func(x *Expr) {
+		if x == nil {
+			return
+		}
+		if x.Op == "id" {
+			if _, ok := pkg.Members[x.S].(*ssa.Global); ok {
+				out = append(out, x.S)
+			}
+		}
+		for _, a := range x.A {
+			walk(a)
+		}
+	}
+	walk(x)
 	return out
 }
